@@ -392,10 +392,46 @@ pub enum ExecResult {
     Crash(String),
     Capped,
     Hang,
+    /// the run says nothing about the library (worker could not start, SIGKILL, harness exit code)
+    Infra(String),
 }
 
-/// run one case file in a fresh worker of the given profile
+/// Run one case in a fresh worker and confirm anything abnormal: a crash of the library is
+/// reproducible, so it must show again in a second fresh worker before it is reported;
+/// circumstances of the machine (worker cannot be started, killed by SIGKILL - the OOM
+/// killer -, harness-internal exit codes) are retried and, if they persist, end as `Infra`
+/// (inconclusive), never as a violation.
 pub fn exec_in_worker(profile: &str, case: &Case, dir: &str, tag: &str) -> ExecResult {
+    let first = exec_once(profile, case, dir, tag);
+    match first {
+        ExecResult::Pass | ExecResult::Capped | ExecResult::Hang => first,
+        ExecResult::Panic(_) | ExecResult::Crash(_) => {
+            match exec_once(profile, case, dir, &format!("{}-confirm", tag)) {
+                ExecResult::Pass | ExecResult::Capped => {
+                    // not reproducible: one more run decides
+                    match exec_once(profile, case, dir, &format!("{}-confirm2", tag)) {
+                        r @ (ExecResult::Panic(_) | ExecResult::Crash(_)) => r,
+                        _ => ExecResult::Infra(format!("abnormal end not reproducible in two further fresh workers (first run: {:?})", first)),
+                    }
+                }
+                ExecResult::Infra(_) | ExecResult::Hang => first,
+                r => r,
+            }
+        }
+        ExecResult::Infra(_) => {
+            std::thread::sleep(Duration::from_millis(500));
+            match exec_once(profile, case, dir, &format!("{}-retry", tag)) {
+                ExecResult::Infra(_) => {
+                    std::thread::sleep(Duration::from_secs(3));
+                    exec_once(profile, case, dir, &format!("{}-retry2", tag))
+                }
+                r => r,
+            }
+        }
+    }
+}
+
+fn exec_once(profile: &str, case: &Case, dir: &str, tag: &str) -> ExecResult {
     let path = format!("{}/exec-{}.json", dir, tag);
     std::fs::write(&path, serde_json::to_string(&case.to_json(usize::MAX)).unwrap()).unwrap();
     let mut child = match Command::new(worker_path(profile))
@@ -405,7 +441,7 @@ pub fn exec_in_worker(profile: &str, case: &Case, dir: &str, tag: &str) -> ExecR
         .spawn()
     {
         Ok(c) => c,
-        Err(e) => return ExecResult::Crash(format!("cannot start worker {}: {}", worker_path(profile), e)),
+        Err(e) => return ExecResult::Infra(format!("cannot start worker {}: {}", worker_path(profile), e)),
     };
     let t0 = Instant::now();
     loop {
@@ -429,10 +465,15 @@ pub fn exec_in_worker(profile: &str, case: &Case, dir: &str, tag: &str) -> ExecR
         Some(0) => ExecResult::Pass,
         Some(1) => ExecResult::Panic(stdout.trim().to_string()),
         Some(77) => ExecResult::Capped,
+        // 2 = harness error inside the worker, 101 = panic outside the guarded section
+        Some(c @ (2 | 101)) => ExecResult::Infra(format!("worker exit code {} {}", c, stderr.lines().last().unwrap_or(""))),
         Some(c) => ExecResult::Crash(format!("exit code {} {}", c, stderr.lines().last().unwrap_or(""))),
         None => {
             use std::os::unix::process::ExitStatusExt;
             let sig = out.status.signal().unwrap_or(0);
+            if sig == 9 {
+                return ExecResult::Infra("worker killed by SIGKILL (out-of-memory killer?)".into());
+            }
             let why = stderr
                 .lines()
                 .find(|l| l.contains("overflowed its stack"))
@@ -567,6 +608,13 @@ fn run_explicit(ctx: &Ctx, phase: &str, profile: &str, cases: &[(String, Case)],
                         ctx.harness_err.lock().unwrap().get_or_insert(format!(
                             "watchdog: case '{}' ran > 450 s in profile {} (inconclusive)",
                             name, profile
+                        ));
+                        ctx.stop.store(true, std::sync::atomic::Ordering::SeqCst);
+                    }
+                    ExecResult::Infra(m) => {
+                        ctx.harness_err.lock().unwrap().get_or_insert(format!(
+                            "case '{}' in profile {} could not be judged: {} (inconclusive)",
+                            name, profile, m
                         ));
                         ctx.stop.store(true, std::sync::atomic::Ordering::SeqCst);
                     }
